@@ -7,7 +7,11 @@ open Helpers
 let bits_of_hex (s : string) : bool list = bits_of_bytes (bytes_of_hex s)
 let hex_of_bits (v : bool list) : string = hex_of_bytes (bytes_of_bits v)
 let rows_of (s : string) : bool list list = List.map bits_of_hex (split_on ',' s)
-let hex128 (z : Big_int_Z.big_int) : string = ZA.format "%032x" z
+(* GF(2^128) elements: coefficient vectors <-> 16 big-endian bytes in hex *)
+let pad32 (s : string) : string = if String.length s >= 32 then s else String.make (32 - String.length s) '0' ^ s
+let el_of_hex (s : string) : bool list = emb128 (bits_of_hex (pad32 s))
+let hex128 (e : bool list) : string = hex_of_bits (emb128 e)
+let ellist (s : string) = List.map el_of_hex (split_on ',' s)
 let zlist (s : string) = List.map z_of_hex (split_on ',' s)
 let zrows (s : string) = List.map zlist (split_on ';' s)
 let show_zlist l = String.concat "," (List.map hex_of_z l)
@@ -32,7 +36,7 @@ let ext_case id kv =
   let delta = bits_of_hex (field kv "D") in
   let x = bits_of_hex (field kv "X") in
   let sg = bits_of_hex (field kv "S") in
-  let chi = zlist (field kv "CHI") in
+  let chi = ellist (field kv "CHI") in
   let t0 = rows_of (field kv "T0") and t1 = rows_of (field kv "T1") in
   let r = run_extension (nat_of_int l) (nat_of_int xi) delta x sg chi t0 t1 in
   let tampers = split_on ';' (field kv "TAMPER") in
@@ -42,7 +46,7 @@ let ext_case id kv =
       match String.index_opt t ':' with
       | None -> failwith "bad tamper"
       | Some p ->
-        let what = String.sub t 0 p and v = z_of_hex (String.sub t (p + 1) (String.length t - p - 1)) in
+        let what = String.sub t 0 p and v = el_of_hex (String.sub t (p + 1) (String.length t - p - 1)) in
         let (xx, tt) =
           if what = "X" then (v, r.er_t)
           else (r.er_x, upd r.er_t (int_of_string (String.sub what 1 (String.length what - 1))) v) in
@@ -113,7 +117,7 @@ let () =
   iter_lines (fun line ->
     match String.split_on_char ' ' line with
     | ["BF"; id; a; b] ->
-      Printf.printf "BF %s %s\n" id (hex128 (bf_mul (z_of_hex a) (z_of_hex b)))
+      Printf.printf "BF %s %s\n" id (hex128 (bf_mul (el_of_hex a) (el_of_hex b)))
     | "E" :: id :: kv -> ext_case id kv
     | ["S"; id; p; a; b; w] ->
       (* vsot in the exponent *)
